@@ -78,8 +78,13 @@ impl RxState {
     /// plain clone could never be provisioned again; cloning is the harness' choice, not an API use
     /// the properties quantify over).
     pub fn instantiate(&self) -> PlainDec {
+        self.instantiate_ex(0)
+    }
+
+    /// the same with the constructor's `max_pdu_frag` argument set (the bundled memory documents it as unused)
+    pub fn instantiate_ex(&self, max_pdu_frag: usize) -> PlainDec {
         if let Some((bufs, pkts)) = &self.rebuild {
-            let mut mem = SimpleGseMemory::new(self.slots, self.pdu_size, 0, 0);
+            let mut mem = SimpleGseMemory::new(self.slots, self.pdu_size, 0, max_pdu_frag);
             for b in bufs {
                 let _ = mem.provision_storage(vec![0u8; *b].into_boxed_slice());
             }
@@ -90,7 +95,7 @@ impl RxState {
             return d;
         }
         let mut src = self.mem.clone();
-        let mut mem = SimpleGseMemory::new(self.slots, self.pdu_size, 0, 0);
+        let mut mem = SimpleGseMemory::new(self.slots, self.pdu_size, 0, max_pdu_frag);
         if self.slots > 0 {
             for id in &self.open_ids {
                 if let Ok(c) = src.take_frag(*id) {
@@ -164,6 +169,7 @@ pub fn table_all() -> MandTable {
             _ => Mand::Final(0),
         };
     }
+    t.t[0x00] = Mand::NonFinal(2);
     // the largest data lengths a manager can declare (8-bit arithmetic on them must not overflow)
     t.t[0xF0] = Mand::NonFinal(254);
     t.t[0xF4] = Mand::NonFinal(255);
